@@ -61,3 +61,22 @@ func init() {
 		Technique:   "SSA edge-dominance (guards) on result productions + channel/goroutine send analysis + option-forwarding dataflow",
 	})
 }
+
+func init() {
+	defProperty(&Property{
+		ID:    "C06",
+		Rules: []string{"EX-ORDER", "EX-ARITH", "EX-DISPATCH", "EX-STACK", "FX-EQUAL", "PN-ASSERT", "PN-HASH", "PN-DIV"},
+		Explanation: "Static decision of the structural clauses of C06. EX-ORDER: the result expressions of LessThan/LessOrEqual/GreaterThan/GreaterOrEqual (Integer and Date clauses), And, Or and Negate are evaluated abstractly over the complete finite domain the operators can observe - the three orderings {<,=,>} of the two asserted operands, resp. all truth assignments - and compared with the specification truth table (the operands are touched only through comparisons, so this is exhaustive; rewrites such as !(a<=b) or swapped operands evaluate to the same table). EX-ARITH: no native + - * << or negation on datalog.Integer anywhere in package datalog; every big.Int.Int64() is dominated by IsInt64() on the same value; Add/Sub/Mul call the big.Int method of their own name on (left,right) in that order; native / is reachable only on paths that have excluded divisor 0 and the pair (MinInt64,-1) (edge cut-set). EX-DISPATCH: the registries datalog constant <-> implementing type <-> Type() tag <-> printer clause <-> biscuit constant (convert / fromDatalog) are total, injective and name-consistent over the frozen list of 17 binary, 3 unary operators and 7 term kinds. EX-STACK: every Push/Pop error in Evaluate is tested and returned, success only under len(stack)==1. FX-EQUAL: every Term.Equal gates any true result by the comma-ok of the assertion to its own type. PN-ASSERT/PN-HASH/PN-DIV: ill-typed operands reach an error rather than a failed assertion, no interface-keyed map or interface == whose implementors are unhashable, integer division guarded against zero - i.e. evaluation cannot panic through these classes.",
+		Decides:     "exact truth tables of the ordering and boolean operators; exactness/overflow discipline of + - * /; totality and consistency of operator dispatch; stack discipline; type-strict equality; absence of assertion/hash/division panics in evaluation",
+		NotDecided:  "results of string/regex/set-algebra operators (strings, regexp, set union/intersection contents), Length values, and anything inside math/big or regexp",
+		Technique:   "abstract interpretation over the finite ordering/truth domain + SSA guard (edge cut-set) analysis + registry table agreement",
+	})
+	defProperty(&Property{
+		ID:    "C10",
+		Rules: []string{"PN-HASH", "PN-ASSERT", "PN-PBREQ", "PN-STDLIB", "PN-INDEX", "PN-DIV", "PN-EXPLICIT", "RG-ERR", "EX-STACK"},
+		Explanation: "Static decision, over every function reachable in the call graph (static + CHA over repository implementors, closures and go bodies included, so panics on library goroutines are covered) from the token entry points (Unmarshal, every exported method of *Biscuit and *Block, NewVerifier, every method of the authorizer), of the panic classes a token can steer: PN-HASH (maps keyed by / == between interface values with unhashable implementors), PN-ASSERT (single-result type assertions must be dominated by the matching Type() tag test; tag map extracted from the implementors' Type() methods), PN-PBREQ (pointer-typed protobuf fields dereferenced only if the struct tag says required, under a nil guard, or via the nil-safe getter), PN-STDLIB (NewKeyFromSeed under len==32; Verify keys length-tested on every phi edge; Sign/Seed/Public only on keys from GenerateKey/NewKeyFromSeed/parameters; PutUint32 into >=4-byte buffers; no MustCompile of token data), PN-INDEX (sign-changing/truncating integer conversions feeding an index are bounded in the source domain first, per target architecture; symbol table indexes bounded above and below), PN-DIV, PN-EXPLICIT (explicit panics discharged by operator-registry totality), plus RG-ERR (no nil keys) and EX-STACK.",
+		Decides:     "absence of the enumerated panic classes on every path reachable from untrusted token bytes, including library goroutines",
+		NotDecided:  "index expressions not fed by a lossy conversion (join odometer indexes, slices of protobuf-internal data), stack depth / memory exhaustion, panics inside protobuf, regexp, participle; explicit panics reachable only from caller-built (not token-derived) expressions",
+		Technique:   "call-graph reachability from token entry points + per-class SSA guard/dominance rules + struct-tag (schema) lookup",
+	})
+}
